@@ -1943,13 +1943,15 @@ func bufferedMapElementOnce(p *Prog, op *ChanOp) (bool, string) {
 				continue
 			}
 			stores++
-			cl, ok := unparen(as.Rhs[i]).(*ast.CallExpr)
-			if !ok {
-				okAll = false
-				continue
-			}
-			if isMk, capc := makeChanCap(rin, cl); !isMk || capc != ">=1" {
-				okAll = false
+			for _, src := range resolveLocalExpr(rin, f.Root(), as.Rhs[i]) {
+				cl, ok := unparen(src).(*ast.CallExpr)
+				if !ok {
+					okAll = false
+					continue
+				}
+				if isMk, capc := makeChanCap(rin, cl); !isMk || capc != ">=1" {
+					okAll = false
+				}
 			}
 		}
 		return true
